@@ -93,6 +93,10 @@ impl PeerSink for Sink {
             }
         }
     }
+    /// a sink that answers Disconnected also reports its transport closed
+    fn is_connected(&self) -> bool {
+        self.beh != Beh::Disc
+    }
 }
 
 fn tag_of(h: &PeerHandle) -> u64 {
@@ -453,6 +457,18 @@ struct Fail {
     ops: Vec<String>,
 }
 
+/// One failure per signature: the one with the shortest reproducing sequence.
+fn keep_shortest(fails: &mut Vec<Fail>, f: Fail) {
+    match fails.iter_mut().find(|g| g.sig == f.sig) {
+        Some(g) => {
+            if f.ops.len() < g.ops.len() {
+                *g = f;
+            }
+        }
+        None => fails.push(f),
+    }
+}
+
 fn fnv_step(mut h: u64, s: &str) -> u64 {
     for b in s.bytes() {
         h ^= b as u64;
@@ -494,16 +510,21 @@ fn visit(ctx: &mut EnumCtx, path: &[EOp], pathstr: &str, spec: &Spec, spec_ret: 
     if sd.contains("/") {
         ctx.nontrivial += 1;
     }
-    if ret != spec_ret && ctx.fails.len() < 8 {
+    let found = if ret != spec_ret {
         let name = match path.last() {
             Some(EOp::Ins(_)) => "insert",
             Some(EOp::Rem(_)) => "remove",
             Some(EOp::Alias(..)) => "alias",
             _ => "query",
         };
-        ctx.fails.push(Fail { sig: format!("peers.ret.{}", name), detail: format!("sequence {}: the last call returned {} but the specification says {}", pathstr, ret, spec_ret), ops: explicit_replay(path) });
-    } else if dig != sd && ctx.fails.len() < 8 {
-        ctx.fails.push(Fail { sig: format!("peers.state.{}", digest_diff(&dig, &sd)), detail: format!("after sequence {}: registry answers {} but the specification says {}", pathstr, dig, sd), ops: explicit_replay(path) });
+        Some((format!("peers.ret.{}", name), format!("sequence {}: the last call returned {} but the specification says {}", pathstr, ret, spec_ret)))
+    } else if dig != sd {
+        Some((format!("peers.state.{}", digest_diff(&dig, &sd)), format!("after sequence {}: registry answers {} but the specification says {}", pathstr, dig, sd)))
+    } else {
+        None
+    };
+    if let Some((sig, detail)) = found {
+        keep_shortest(&mut ctx.fails, Fail { sig, detail, ops: explicit_replay(path) });
     }
     format!("{} {} {}", pathstr, ret, dig)
 }
@@ -600,7 +621,9 @@ fn run_enum(idx: &str, depth: usize, fold: usize, prefix: &str, threads: usize) 
         lines.extend(o);
         nodes += n;
         nt += t;
-        fails.extend(f);
+        for x in f {
+            keep_shortest(&mut fails, x);
+        }
     }
     Some((lines, nodes, nt, fails))
 }
